@@ -56,7 +56,7 @@ PROPS = {
                 GEN + "the model's full snapshot (heights, timestamps, validity, necessity, ordered parent lists with child indices, children, "
                 "handler counts, heap buckets in order, counters) is compared with verif_snapshot() after EVERY action, and verif_audit() "
                 "(index arrays position by position, heap markers, handler counts) must be silent; non-trivial = distinct history in which node functions ran"),
-    "C15": spec(["IncrVerif.Props.C15"], [("maps", 1.0)], ["api", "ev", "read", "snap"],
+    "C15": spec(["IncrVerif.Props.C15", "IncrVerif.Props.C15History"], [("maps", 1.0)], ["api", "ev", "read", "snap"],
                 "profile maps: incr_filter_mapi / incr_unordered_fold (plain and with update, with and without revert-to-init) / incr_merge / "
                 "incr_partition_mapi on BTreeMap, Rc<BTreeMap> and OrdMap inputs (each operator on the map types it is defined for) through the real "
                 "engine: two map-valued vars, 1-3 operator instances, 4-14 edits per history (insert / delete / change / empty / refill / equal map "
